@@ -82,4 +82,62 @@ def nontrivial(case, truth, res, mask, n):
 
 
 def directed(ctx, only=None):
-    return None
+    """Histories: a contracted function that has ALREADY been called is adopted as the overriding method of a DBC
+    sub-class (`class D(B): m = f`); from then on the inherited postconditions gate its returns as well. Sync and async,
+    own postcondition present or not, inherited postcondition violated or not."""
+    import icontract
+    from vf.progmodel.run import drive
+
+    for is_async in (False, True):
+        for own_post in (True, False):
+            for warm in (True, False):
+                seen = []
+                T = {"base": True, "own": True}
+
+                def base_post(result):
+                    seen.append("base")
+                    return T["base"]
+
+                def own_postc(result):
+                    seen.append("own")
+                    return T["own"]
+
+                class Base(icontract.DBC):
+                    @icontract.ensure(base_post, "base-post")
+                    def m(self, x):
+                        return x
+
+                if is_async:
+                    async def f(self, x):
+                        seen.append("body")
+                        return x
+                else:
+                    def f(self, x):
+                        seen.append("body")
+                        return x
+                if own_post:
+                    f = icontract.ensure(own_postc, "own-post")(f)
+
+                def call(fn, *a):
+                    r = fn(*a)
+                    return drive(r) if is_async else r
+
+                if warm:
+                    call(f, None, 1)  # the function is used stand-alone before it becomes a method
+                D_ = type(Base)("D_", (Base,), {"m": f})
+                label = "%s, own postcondition: %s, called before adoption: %s" % ("async" if is_async else "sync", own_post, warm)
+                for tb in (True, False):
+                    T["base"] = tb
+                    del seen[:]
+                    try:
+                        call(D_().m, 5)
+                        got = "returned"
+                    except icontract.ViolationError as e:
+                        got = "violation:" + ("base" if "base-post" in str(e) else "own")
+                    want = "returned" if tb else "violation:base"
+                    exp_seen = ["body", "base"] + (["own"] if own_post and tb else [])
+                    ctx.case(["adopted", is_async, own_post, warm, tb], True, sample={"directed": "adoption: " + label, "inherited holds": tb})
+                    if got != want or seen != exp_seen:
+                        ctx.fail("adopted-function|%s|%s" % ("async" if is_async else "sync", "warm" if warm else "cold"),
+                                 {"directed": "adopted"}, "%s; inherited postcondition %s: expected %s evaluating %r, got %s "
+                                 "evaluating %r" % (label, "holds" if tb else "is violated", want, exp_seen, got, seen))
